@@ -1060,6 +1060,14 @@ pub fn gen_fixed_for_float(rng: &mut Rng, lay: Lay, w: u32) -> u128 {
 pub const PI_125: u128 = 0x6487ed5110b4611a62633145c06e0e68;
 /// e * 2^125 (floor)
 pub const E_125: u128 = 0x56fc2a2c515da54d57ee2b10139e9e78;
+/// floor(e^k * 2^120) for k = 1..5 (mpmath)
+pub const EK_120: [u128; 5] = [
+    0x2b7e151628aed2a6abf7158809cf4f3,
+    0x763992e35376b730ce8ee881ada2aee,
+    0x1415e5bf6fb105f2d4bdfc53744c3a39,
+    0x3699205c4e74b0cf1ada77fb727b72da,
+    0x9469c4cb819c78fb37d56c91ad5f3a15,
+];
 /// ln 2 * 2^127 (floor)
 pub const LN2_127: u128 = 0x58b90bfbe8e7bcd5e4f1d9cc01f97b57;
 
